@@ -45,6 +45,46 @@ pub fn stub_write(_o: &mut dyn std::fmt::Write, _a: std::fmt::Arguments<'_>) -> 
     Ok(())
 }
 
+/// Contract stub for `ProgressTracker::maximal_committed_index` (group commit off): the
+/// largest index acknowledged by a majority of each non-empty half, computed by counting
+/// instead of the implementation's `MaybeUninit` array + `sort_by` (values moved through raw
+/// pointers do not constant-propagate in CBMC, which makes every later vector length
+/// symbolic).  The real function is checked against the same counting oracle for all inputs in
+/// the C11 harnesses; Raft-level leader harnesses use this stub (listed in the evidence).
+pub fn stub_mci(prs: &mut raft::ProgressTracker) -> (u64, bool) {
+    assert!(!prs.group_commit(), "stub_mci models plain quorum commit only");
+    let (inc, out) = prs.conf().voters().verif_halves();
+    if inc.is_empty() && out.is_empty() {
+        return (u64::MAX, true);
+    }
+    let ok = |v: u64| -> bool {
+        let mut good = true;
+        for half in [inc, out] {
+            if half.is_empty() {
+                continue;
+            }
+            let mut c = 0usize;
+            for id in half.iter() {
+                let m = prs.get(*id).map_or(0, |p| p.matched);
+                if m >= v {
+                    c += 1;
+                }
+            }
+            if c < half.len() / 2 + 1 {
+                good = false;
+            }
+        }
+        good
+    };
+    let mut best = 0u64;
+    for (_, p) in prs.iter() {
+        if p.matched > best && ok(p.matched) {
+            best = p.matched;
+        }
+    }
+    (best, false)
+}
+
 /// Declares harnesses: generates one `#[kani::proof]` per entry and the native
 /// registry used by `replay`.
 #[macro_export]
@@ -56,6 +96,7 @@ macro_rules! harnesses {
             #[kani::unwind($u)]
             #[kani::stub(std::fmt::format, $crate::macros::stub_format)]
             #[kani::stub(std::fmt::write, $crate::macros::stub_write)]
+            #[kani::stub(raft::ProgressTracker::maximal_committed_index, $crate::macros::stub_mci)]
             pub fn $name() {
                 let mut s = $crate::inp::Src::symbolic();
                 let f: fn(&mut $crate::inp::Src) = $f;
